@@ -19,9 +19,6 @@ MONITORED = ["func", "args", "u8", "math", "global", "gomap", "goslice", "gostru
 WRAPPERS = {"gomap", "goslice", "gostruct", "dyn"}          # documented non-ordinary variants: key order not checked
 DEFAULT_PROTO = {"plain": "O", "nullproto": "null", "arrow": "F", "bound": "F", "class": "F", "strobj": "?", "sargs": "O"}
 
-SIG_NIL_PANIC = "exotic-defineProperty-nil-deref:"          # + kind (still known for goslice only)
-SIG_STR_DEF_IDX = "stringObject:defineOwnPropertyIdx-rejects-compatible-descriptor-on-character-index"
-SIG_STR_GET_IDX = "stringObject:getOwnPropIdx-misses-own-index-property-beyond-length"
 SIG_GOSLICE_GROWS = "goslice:non-extensible-slice-grows"
 SIG_GOSLICE_SHRINKS = "goslice:length-shrink-removes-nonconfigurable-elements"
 
@@ -419,18 +416,7 @@ def shrink_case(ctx, h, model, case):
 
 
 def seq_signature(case, lines=None, dd=None):
-    """class of a diverging sequence.  Two known defects of the String exotic object's NUMBER-keyed method copies are
-    recognised by the first diverging op (a String object in the case, key given as a number); everything else gets the
-    op/entry-point shape of the (minimised) sequence."""
-    if lines is not None and dd is not None and dd < len(lines) and any(k == "strobj" for k, _ in case["objs"]):
-        op = lines[dd].split()
-        key = op[3] if len(op) > 3 and op[0] in ("def", "set", "get", "del", "has", "hasown") else ""
-        if key.startswith("i") and key[1:].isdigit():
-            if int(key[1:]) < 2:
-                if op[0] == "def" and case["objs"][int(op[2][1:])][0] == "strobj":
-                    return SIG_STR_DEF_IDX
-            else:
-                return SIG_STR_GET_IDX
+    """class of a (minimised) diverging sequence: its op/entry-point shape.  No divergence is attributed to a known finding."""
     return "seq:" + "-".join(o[0] + (o[1] if o[0] not in ("frz", "seal") else "") for o in case["ops"])[:80]
 
 
@@ -557,10 +543,7 @@ def main(ctx):
         kind = c["objs"][int(op[2][1:])][0] if len(op) > 2 and op[2][1:].isdigit() else "?"
         if op[0] in ("frz", "seal"):
             kind = c["objs"][int(op[1][1:])][0]
-        if op[0] == "def" and kind == "goslice" and norm_key(op[3]) == "slength" and "nil pointer" in l:
-            sig = SIG_NIL_PANIC + kind
-        else:
-            sig = "panic:%s:%s" % (kind, op[0] + op[1])
+        sig = "panic:%s:%s" % (kind, op[0] + (op[1] if op[0] not in ("frz", "seal") else ""))
         if sig in seen_p:
             continue
         seen_p.add(sig)
